@@ -12,6 +12,7 @@ package main
 import (
 	"fmt"
 	"go/token"
+	"go/types"
 	"sort"
 	"strings"
 
@@ -371,4 +372,85 @@ func c15BoundedByLen(ia *ssa.IndexAddr, idx ssa.Value, isSizes func(ssa.Value) b
 		}
 	}
 	return false
+}
+
+
+// C15.R13: a fix-up that can never run.  When a nil test of a header item of the packet is reached
+// only after that very item was set to nil (every store of the field that can reach the test
+// without another one in between stores nil), the guarded branch - in the mutators it is the
+// adjustment of the header / packet length for the item being removed - is dead: the stored lengths
+// keep counting an item the encoder no longer writes.  (A contradiction rule: the code both clears
+// the field and asks whether it is set.)
+func c15R13(p *Prog, r *Report, fns []*ssa.Function) {
+	n := 0
+	for _, fn := range fns {
+		if fn.Signature.Recv() == nil || typeName(fn.Signature.Recv().Type()) != "Packet" {
+			continue
+		}
+		Instrs(fn, func(in ssa.Instruction) {
+			iff, ok := in.(*ssa.If)
+			if !ok {
+				return
+			}
+			bo, ok := iff.Cond.(*ssa.BinOp)
+			if !ok || (bo.Op != token.NEQ && bo.Op != token.EQL) {
+				return
+			}
+			kc, isC := bo.Y.(*ssa.Const)
+			if !isC || kc.Value != nil {
+				return
+			}
+			o, f, base, okf := FieldOf(bo.X)
+			if !okf || o != "Packet" || base != ssa.Value(fn.Params[0]) {
+				return
+			}
+			if _, isPtr := bo.X.Type().Underlying().(*types.Pointer); !isPtr {
+				return
+			}
+			isStoreF := func(x ssa.Instruction) bool {
+				st, ok := x.(*ssa.Store)
+				if !ok {
+					return false
+				}
+				o2, f2, b2, ok2 := FieldOf(st.Addr)
+				return ok2 && o2 == o && f2 == f && b2 == base
+			}
+			stores := StoresTo(fn, o, f)
+			if len(stores) == 0 {
+				return
+			}
+			isThis := func(x ssa.Instruction) bool { return x == ssa.Instruction(iff) }
+			// reachable from the entry without any store of the field: the field's old value is tested
+			if len(ReachAvoiding(fn, nil, isStoreF, isThis)) > 0 {
+				return
+			}
+			allNil, any := true, false
+			for _, st := range stores {
+				if !isStoreF(st) {
+					continue
+				}
+				if len(ReachAvoiding(fn, st, isStoreF, isThis)) == 0 {
+					continue
+				}
+				any = true
+				if c, isK := st.Val.(*ssa.Const); !isK || c.Value != nil {
+					allNil = false
+				}
+			}
+			if !any {
+				return
+			}
+			n++
+			r.Fn(FuncName(fn))
+			key := fmt.Sprintf("%s: the nil test of %s looks at a value that can be set", FuncName(fn), f)
+			if allNil {
+				r.Bad("C15.R13", key, p.InstrPos(iff), "every way to this test of p."+f+" passes an assignment of nil to that same field with nothing in between: the branch for a present "+f+" can never run, so whatever it adjusts (the header and packet lengths when the item is removed) keeps its old value and the encoded packet no longer matches its declared lengths")
+			} else {
+				r.OK("C15.R13", key, p.InstrPos(iff), "the field can be non-nil at the test")
+			}
+		})
+	}
+	if n == 0 {
+		r.OK("C15.R13", "nil tests after stores of the tested field", "-", "no test of a header item is preceded on every way by a store of that item")
+	}
 }
